@@ -166,6 +166,13 @@ type c03Party struct {
 	store    *c03Store
 	realSign bool // native only: graft what the real SignNextCommitment needs
 
+	// live reconnect states only (zz_verif_c03_live.go): the in-memory local
+	// chain additionally holds a commitment at localH+1 that was received
+	// (ReceiveNewCommitment) but not yet revoked; nothing of it is persisted, so
+	// localH stays the tail AND the durable height.
+	live                        bool
+	liveLocalIdx, liveRemoteIdx uint64 // its messageIndices
+
 	// taproot only
 	skipInit  bool           // opts.skipNonceInit: the nonces were exchanged before (peer.addLink)
 	localNonce *musig2.Nonces // our pending verification nonce
@@ -181,7 +188,16 @@ func (p *c03Party) remTip() uint64 {
 
 // pending / window: the state predicates of SignNextCommitment's contract.
 func (p *c03Party) pending() bool {
-	return p.localLogIdx != p.tipLocalIdx || p.tailRemoteIdx != p.tipRemoteIdx
+	return p.localLogIdx != p.tipLocalIdx || p.lastLocalRemoteIdx() != p.tipRemoteIdx
+}
+
+// lastLocalRemoteIdx: the peer's updates covered by the latest commitment the
+// peer signed for us (after a reload that is the tail; live it is the tip).
+func (p *c03Party) lastLocalRemoteIdx() uint64 {
+	if p.live {
+		return p.liveRemoteIdx
+	}
+	return p.tailRemoteIdx
 }
 func (p *c03Party) window() bool { return !p.unacked && p.nextPt != nil }
 
@@ -214,6 +230,13 @@ func c03Chan(p *c03Party) *LightningChannel {
 		whoseCommit:    lntypes.Local,
 		messageIndices: lntypes.Dual[uint64]{Local: p.tailLocalIdx, Remote: p.tailRemoteIdx},
 	})
+	if p.live {
+		lch.addCommitment(&commitment{
+			height:         p.localH + 1,
+			whoseCommit:    lntypes.Local,
+			messageIndices: lntypes.Dual[uint64]{Local: p.liveLocalIdx, Remote: p.liveRemoteIdx},
+		})
+	}
 	rch := newCommitmentChain()
 	if p.unacked {
 		rch.addCommitment(&commitment{
@@ -240,7 +263,7 @@ func c03Chan(p *c03Party) *LightningChannel {
 		commitChains:  lntypes.Dual[*commitmentChain]{Local: lch, Remote: rch},
 		updateLogs: lntypes.Dual[*updateLog]{
 			Local:  newUpdateLog(p.localLogIdx, 0),
-			Remote: newUpdateLog(p.tailRemoteIdx, 0),
+			Remote: newUpdateLog(p.lastLocalRemoteIdx(), 0),
 		},
 	}
 	if vNative() {
@@ -274,6 +297,7 @@ func c03Graft(lc *LightningChannel, p *c03Party) {
 		dst.fee, dst.feePerKw, dst.dustLimit = src.fee, src.feePerKw, src.dustLimit
 	}
 	cp(lc.commitChains.Local.tail(), base.commitChains.Local.tail())
+	cp(lc.commitChains.Local.tip(), base.commitChains.Local.tail())
 	cp(lc.commitChains.Remote.tail(), base.commitChains.Remote.tail())
 	cp(lc.commitChains.Remote.tip(), base.commitChains.Remote.tail())
 }
@@ -777,10 +801,13 @@ func c03SignType(i int) chanstate.ChannelType {
 	return chanstate.SingleFunderTweaklessBit | chanstate.AnchorOutputsBit | chanstate.ZeroHtlcTxFeeBit
 }
 
-func c03Table(signDomain bool, shapes int) {
+func c03Table(signDomain bool, shapes int, live bool) {
 	c03Config()
 	p := c03SymParty(1, 2)
 	p.store.shapes = shapes
+	if live {
+		c03LiveParty(p, "")
+	}
 	if signDomain {
 		// states in which a retransmitted revocation is followed by a real
 		// SignNextCommitment: updates pending, window open. Commitment numbers
@@ -800,12 +827,16 @@ func c03Table(signDomain bool, shapes int) {
 	f := c03Reference(p, x)
 	lc := c03Chan(p)
 	res := c03Process(lc, x.m)
-	c03Check("", p, x, f, res)
+	if live {
+		// first: the release rule is the headline of a counterexample
+		c03LiveCheck(c03LiveTag(p), p, lc, res)
+	}
+	c03Check(c03LiveTag(p), p, x, f, res)
 }
 
-func VerifC03Table()         { c03Table(false, 3) }
-func VerifC03TableSign()     { c03Table(true, 3) }
-func VerifC03TableThorough() { c03Table(false, 5) }
+func VerifC03Table()         { c03Table(false, 3, false) }
+func VerifC03TableSign()     { c03Table(true, 3, false) }
+func VerifC03TableThorough() { c03Table(false, 5, false) }
 
 // ---------------------------------------------------------------------------
 // Obligation 2: honest pair. Both parties reloaded from disk after a
@@ -838,7 +869,11 @@ func c03HonestParty(tag string, self, peer byte, ct chanstate.ChannelType, op wi
 // is in flight, and none can be sent for a commitment the peer has not signed),
 // each revocation store holds the peer's secrets below its remote tail, and
 // the stored current/next points are the peer's points for remTail, remTail+1.
-func c03HonestPair() (a, b *c03Party, dA, dB bool) {
+func c03HonestPair() (a, b *c03Party, dA, dB bool) { return c03HonestPairL(0) }
+
+// c03HonestPairL: with live = 1 the receiver B, with live = 2 each party may additionally hold a received,
+// not yet revoked commitment in memory (see zz_verif_c03_live.go).
+func c03HonestPairL(live uint64) (a, b *c03Party, dA, dB bool) {
 	ct := chanstate.ChannelType(vU64("chanType"))
 	vAssume(ct&c03TaprootBit == 0)
 	op := c03Outpoint()
@@ -869,6 +904,9 @@ func c03HonestPair() (a, b *c03Party, dA, dB bool) {
 		b.nextPt = input.ComputeCommitmentPoint(c03Sec(a.self, b.remTail+1)[:])
 	}
 	a.store.hasDiff, b.store.hasDiff = a.unacked, b.unacked
+	if live != 0 {
+		c03LivePair(a, b, dA, dB, live == 2)
+	}
 	// SignNextCommitment after a retransmitted revocation is VerifC03TableSign's
 	// subject (arbitrary messages, hence honest ones too)
 	vAssume(!(a.pending() && a.window()) && !(b.pending() && b.window()))
